@@ -277,4 +277,44 @@ theorem kepler_periodic_cartesian_then (fuel : Nat) (mu : ℝ) (x : Elts) (hmu :
 
 example : (0 : ℝ) < 4 ∧ (⟨1, 0.5, 1, 2, 3, 0.25⟩ : Elts).a ≠ 0 ∧ (⟨1, 0.5, 1, 2, 3, 0.25⟩ : Elts).e < 1 := by norm_num
 
+/-! ### … cartesian in, cartesian out -/
+
+/-- **Periodicity of `Orbit.propagate` on a cartesian orbit, for every fuel**: `x` = the mean elements the orbit setter computes
+from the cartesian coordinates `c` (the translated chain cartesian → keplerian → eccentric → mean).  If they describe a bound
+orbit, propagating `c` by `k` periods returns exactly what propagating `c` by no time at all returns (the same `Option`; that
+the latter is `c` again is the round trip of C01). -/
+theorem kepler_periodic_cartesian_in_out (fuel : Nat) (mu : ℝ) (c : List ℝ) (x : Elts)
+    (hx : eltsOfList (cartToMean mu c) = some x) (hmu : 0 < mu) (ha : x.a ≠ 0) (h1 : x.e < 1) (k : ℤ) :
+    orbitPropagateCart (keplerStep mu) fuel mu c (k * (2 * Real.pi / meanMotion mu x.a))
+      = orbitPropagateCart (keplerStep mu) fuel mu c 0 := by
+  simp only [orbitPropagateCart, hx, Option.bind_some]
+  rw [kepler_periodic_cartesian fuel mu x hmu ha h1 k, kepler_zero]
+
+/-- … and `k` periods before or after any further span `t` change nothing -/
+theorem kepler_periodic_cartesian_in_out_then (fuel : Nat) (mu : ℝ) (c : List ℝ) (x : Elts)
+    (hx : eltsOfList (cartToMean mu c) = some x) (hmu : 0 < mu) (ha : x.a ≠ 0) (h1 : x.e < 1) (k : ℤ) (t : ℝ) :
+    orbitPropagateCart (keplerStep mu) fuel mu c (k * (2 * Real.pi / meanMotion mu x.a) + t)
+      = orbitPropagateCart (keplerStep mu) fuel mu c t := by
+  simp only [orbitPropagateCart, hx, Option.bind_some]
+  rw [← kepler_compose, kepler_periodic_cartesian_then fuel mu x hmu ha h1 k t]
+
+/-- the setter's chain always yields six elements -/
+example (mu : ℝ) (c0 c1 c2 c3 c4 c5 : ℝ) : ∃ x, eltsOfList (cartToMean mu [c0, c1, c2, c3, c4, c5]) = some x := by
+  simp [cartToMean, app6, kpCartToKepl, kpKeplToEcc, kpEccToMean, eltsOfList]
+
+/-! ## J2 is a theory of bound orbits -/
+
+/-- **the J2 clause has the domain `0 ≤ e < 1`**: the first-order secular rates are orbit averages and the mean-anomaly rate
+contains `√(1 − e²)`.  For `e > 1` the code evaluates `np.sqrt` of a negative number and returns an all-NaN state, silently; the
+model over ℝ (where `Real.sqrt` of a negative number is 0) is therefore NOT what the code computes there — its sixth rate
+collapses to the bare mean motion — which is why `j2_rates_formula`, `j2_step_mod` and `j2_node_rate_eq_sso` carry the guard
+`0 ≤ e < 1` and the compiled (Float) model, like the code, returns NaN (correspondence: agreement on `non-finite`). -/
+theorem j2_outside_domain_hyperbolic (mu a e i : ℝ) (h1 : 1 < e) :
+    Real.sqrt (1 - e ^ 2) = 0 ∧ (j2Delta mu a e i 1).getD 5 0 = meanMotion mu a := by
+  have hs : Real.sqrt (1 - e ^ 2) = 0 := Real.sqrt_eq_zero_of_nonpos (by nlinarith)
+  refine ⟨hs, ?_⟩
+  simp [j2Delta, powi, sqrt, hs]
+
+example : (1 : ℝ) < 1.5 := by norm_num
+
 end BeyondVerif.C05
